@@ -216,6 +216,21 @@ control("C10", "quantities swap sides in the number arm",
         [(AR, "            q2 = p2.GetQuantity()\n            q1 = Quantity.CreateEmpty()", "            q1 = p2.GetQuantity()\n            q2 = Quantity.CreateEmpty()")], "C10.R1")
 control("C10", "tuple-of-tuples branch converts to the own unit",
         [(AR, "                result.append(tuple(Convert(v, unit) for v in elem))", "                result.append(tuple(Convert(v, self.unit) for v in elem))")], "C10.R7")
+# ------------------------------------------------------------------------------------------ C13
+control("C13", "ChangingIndex edits the values it got without copying",
+        [(FA, "        values = list(self.GetValues(quantity.GetUnit()))", "        values = self.GetValues(quantity.GetUnit())")], "C13.R2")
+control("C13", "ConvertFractionValue mutates the operand's own Fraction",
+        [(FS, "            converted_fraction = copy.copy(fraction_value.GetFraction())", "            converted_fraction = fraction_value.GetFraction()")], "C13.R2")
+control("C13", "Scalar.__reduce__ swaps value and quantity",
+        [(S, "        return Scalar, (self._quantity, self.value, None)", "        return Scalar, (self.value, self._quantity, None)")], "C13.R3")
+control("C13", "a formatting method rounds the stored value in place",
+        [(S, "        if value_format is None:\n            value_format = self.FORMATTED_VALUE_FORMAT\n        return FormatFloat(value_format, self.GetValue(unit))", "        if value_format is None:\n            value_format = self.FORMATTED_VALUE_FORMAT\n        self._value = round(self._value, 12)\n        return FormatFloat(value_format, self.GetValue(unit))")], "C13.R1")
+control("C13", "__deepcopy__ builds a new object",
+        [(A, "    def __deepcopy__(self: T, memo: object) -> T:\n        \"\"\"\n        Copy protocol.\n        \"\"\"\n        return self.Copy()", "    def __deepcopy__(self: T, memo: object) -> T:\n        \"\"\"\n        Copy protocol.\n        \"\"\"\n        return self.CreateCopy()")], "C13.R3")
+control("C13", "Array validation sorts the stored values",
+        [(AR, "                if len(values) > 0:\n                    if isinstance(values[0], tuple):", "                if len(values) > 0:\n                    self._value.sort()\n                    if isinstance(values[0], tuple):")], "C13.R2")
+control("C13", "a copy inherits the cached validity verdict through a non-self store",
+        [(AR, "        return AbstractValueWithQuantityObject.CreateCopy(\n            self, value=values, unit=unit, category=category, **kwargs\n        )", "        ret = AbstractValueWithQuantityObject.CreateCopy(\n            self, value=values, unit=unit, category=category, **kwargs\n        )\n        ret._is_valid = self._is_valid\n        return ret")], "C13.R1")
 # ------------------------------------------------------------------------------------------ running
 def _apply(edits):
     overlay = {}
